@@ -1724,7 +1724,8 @@ def cancel_crash_run(workload: str, j_sym: Any, k_sym: Any, max_k: int = 14) -> 
 def handler_stmt_race_run(prop: str, workload: str, j_sym: Any, k_sym: Any, pick_sym: Any, monitors: tuple[str, ...] = ("C02", "C06"),
                           compare: str = "reference", max_k: int = 90, a_pick_sym: Any = 0,
                           inject: Callable[[World], None] | None = None, post: Callable[[World, dict[str, Any], Any], tuple[str, Any] | None] | None = None,
-                          k2_sym: Any = None, pick2_sym: Any = 0, wide: bool = False, delayed: bool = False) -> bool:
+                          k2_sym: Any = None, pick2_sym: Any = 0, wide: bool = False, delayed: bool = False,
+                          pre_choices: list[Any] | None = None) -> bool:
     """Two workers, one pre-emption, every pair of handlers the run offers: the handler of the j-th
     delivered message (worker A) is stopped just before its k-th SQL statement and another
     deliverable message (the pick-th of those visible at that instant) is handled completely by
@@ -1745,7 +1746,7 @@ def handler_stmt_race_run(prop: str, workload: str, j_sym: Any, k_sym: Any, pick
                 wf = WORKLOADS[workload]()
                 spec = spec_of(wf)
                 w.submit(wf)
-                state: dict[str, Any] = {"n": 0, "armed": False, "done": False, "at": None, "sql": None, "b": None, "a": None}
+                state: dict[str, Any] = {"n": 0, "armed": False, "done": False, "at": None, "sql": None, "b": None, "a": None, "cp": 0}
 
                 def visible(nested: bool = False) -> list[dict[str, Any]]:
                     now = stubs.CLOCK.peek_ms()
@@ -1828,7 +1829,11 @@ def handler_stmt_race_run(prop: str, workload: str, j_sym: Any, k_sym: Any, pick
                             HOOKS.on_statement = None
                         state["in_flight"] = list(range(n_before + 1, w.ledger.seq + 1))
                     else:
-                        w.deliver(vis[0]["id"])
+                        idx = 0
+                        if pre_choices and raced_at is None and state["cp"] < len(pre_choices) and len(vis) > 1:
+                            idx = hx.pick(pre_choices[state["cp"]], min(len(vis), 3))
+                            state["cp"] += 1
+                        w.deliver(vis[idx]["id"])
                     step += 1
                 w.processor._check_dlq()
                 snap = w.snapshot()
